@@ -380,6 +380,19 @@ Inductive rv :=
 | RIter (i : it)                       (* one-shot iterator *)
 | ROrd (keys : list okey) (i : it).    (* OrderingIterable: iterable, not an iterator *)
 
+(* a collection bound to a name by let(m => ...) and traversed again while an earlier traversal of it is
+   still suspended: every traversal of a re-iterable (tuple, list, OrderingIterable, dict view, MEMORIZED
+   iterator) collection sees all its elements from the start *)
+Inductive selfop :=
+| SelfZip                          (* $m.zip($m) *)
+| SelfZipSkip (n : nat)            (* $m.zip($m.skip(n)) *)
+| SelfJoin (p f : lam2)            (* $m.join($m, p, f) *)
+| SelfSelectAgg (c : Z) (agg : nat) (* $m.select($ * c + $m.AGG()), AGG = sum len max min first last *)
+| SelfWhereLtMax                   (* $m.where($ < $m.max()) *)
+| SelfSelectMany (n : nat)         (* $m.selectMany($m.select($ + 0).limit(n)) *)
+| SelfFirstAll                     (* [$m.first(), $m.toList()] *)
+| SelfCountSum.                    (* [$m.count(), $m.sum(0)] *)
+
 Inductive stage :=
 | SWhere (p : lam) | SSelect (f : lam) | SSelectMany (f : lam)
 | SSkip (n : Z) | STake (n : Z)
@@ -419,7 +432,8 @@ Inductive stage :=
 | SUnpackNamed (n : nat) | SUnpackIdx (idxs : list nat) | SWith
 | SZipLongest (ls : list (list val)) (fill : option val)
 | SListOf (vs : list val)
-| SMergeWithX (d : kvs) (lm im : option lam2) (maxl : Z).
+| SMergeWithX (d : kvs) (lm im : option lam2) (maxl : Z)
+| SSelf (op : selfop).
 
 (* yaqltypes.Iterable(): tuples, lists, sets, iterators, OrderingIterable; not dicts *)
 Definition as_it (r : rv) : option it :=
@@ -817,6 +831,26 @@ Definition apply_stage (fuel : nat) (s : st) (sg : stage) (r : rv) : rr :=
           else (s, Ok (RDict true (merged ++ filter (fun kv => match dict_get_l (fst kv) d with Some _ => false | None => true end) e')))
       | _ => no_match s
       end
+  | SSelf op =>
+      with_list fuel s r (fun s1 l =>
+        let agg a := match a with
+                     | 0 => aggregate_seed (apply2 L2Add) (VInt 0) l
+                     | 1 => VInt (Z.of_nat (length l))
+                     | 2 => match l with [] => VNull | x :: t => aggregate_seed (apply2 L2Max) x t end
+                     | 3 => match l with [] => VNull | x :: t => aggregate_seed (apply2 L2Min) x t end
+                     | 4 => match l with [] => VNull | x :: _ => x end
+                     | _ => last l VNull
+                     end in
+        match op with
+        | SelfZip => ok_it s1 (OfList (map (fun x => VList false [x; x]) l))
+        | SelfZipSkip n => ok_it s1 (OfList (map (fun p => VList false [fst p; snd p]) (zip_l l (skipn n l))))
+        | SelfJoin p f => ok_it s1 (Join p f l None (OfList l))
+        | SelfSelectAgg c a => ok_it s1 (OfList (map (fun x => apply2 L2Add (apply (LMul c) x) (agg a)) l))
+        | SelfWhereLtMax => ok_it s1 (OfList (filter (fun x => val_ltb x (agg 2)) l))
+        | SelfSelectMany n => ok_it s1 (OfList (flat_map (fun _ => firstn n l) l))
+        | SelfFirstAll => match l with [] => (s1, Err EStop) | x :: _ => ok_val s1 (VList false [x; VList false l]) end
+        | SelfCountSum => ok_val s1 (VList false [VInt (Z.of_nat (length l)); agg 0])
+        end)
   | SIndexDefault k dflt =>
       match r with
       | RDict _ d => if hashable k then ok_val s (match dict_get_l k d with Some v => v | None => dflt end) else (s, Err EType)
